@@ -123,7 +123,8 @@ def flo_script(case):
             if i + 1 < nh:
                 L.append("      go next if recurred >= %d" % place["host"][i])
         L.append("")
-    L.append("  framer rd be %s first F0" % {"active": "active", "aux": "aux", "clone": "moot"}[place["kind"]])
+    L.append("  framer rd be %s%s first F0" % ({"active": "active", "aux": "aux", "clone": "moot"}[place["kind"]],
+                                                (" at " + case["fperiod"]) if case.get("fperiod") else ""))
     def verbs_of(pfx, frames):
         for i, f in enumerate(frames):
             L.append("    frame %s%d%s" % (pfx, i, "" if fr_over(f) is None else " in %s%d" % (pfx, fr_over(f))))
@@ -192,7 +193,10 @@ def drv_line(case, mode, start=0, nobs=None):
                 else:
                     o += ["G", str(v[1])] + needs(v[2])
         return o
-    out = ["run" + mode, tnum(case["period"]), str(start), str(nobs)] + frames(case["frames"])
+    if case.get("fperiod"):
+        out = ["run" + mode + "q", tnum(case["period"]), tnum(case["fperiod"]), str(nobs)] + frames(case["frames"])
+    else:
+        out = ["run" + mode, tnum(case["period"]), str(start), str(nobs)] + frames(case["frames"])
     helper = case.get("helper") or []
     done = [i for i, f in enumerate(helper) if any(v[0] == "D" for v in fr_verbs(f))]
     out += ["H"] + frames(helper) + [str(len(done))] + [str(i) for i in done]
@@ -277,12 +281,29 @@ def check_trace(case, line, start=0, count=None, who="rd"):
         s += P
     if obs[0][:4] != (0, True, 0.0, 0):
         return "%s start tick %d: expected F0 entered with elapsed 0 recurred 0, got %r" % (who, start, obs[0][:4])
+    # a framer with its own period is run by the skedder only in the ticks where its next run time has come
+    # (`if retime > stamp: skip else: run; retime += period`); in the other ticks nothing of it changes
+    ran = [True] * n
+    if case.get("fperiod"):
+        Qp = max(0.0, float(num(case["fperiod"])))
+        retime = 0.0
+        for i in range(n):
+            if retime > obs[i][4]:
+                ran[i] = False
+            else:
+                retime += Qp
     e = 0                                            # tick of the last outline change
+    runs = 0                                         # runs of the framer since then
     entered_at = {0: 0}
     for i in range(1, n):
         prev = obs[i - 1][0]
+        if not ran[i]:
+            if obs[i][:4] != (prev, False, obs[i - 1][2], obs[i - 1][3]):
+                return "%s tick %d: the framer is not run in this tick, yet its state changed to %r" % (who, start + i, obs[i][:4])
+            continue
+        runs += 1
         el = obs[i][4] - obs[e][4]                   # store time since the outline last changed
-        rc = i - e                                   # completed iterations since then
+        rc = runs                                    # completed iterations since then
         if has_susp(case):
             # with a conditional auxiliary the outline is truncated and restored while the helper runs; which
             # conditions are evaluated then depends on the helper.  What the property says regardless:
@@ -296,6 +317,7 @@ def check_trace(case, line, start=0, count=None, who="rd"):
                     return ("%s tick %d (frame F%d entered at tick %d): elapsed %r recurred %d admit a transition to %s "
                             "with restarted clocks, implementation %r" % (who, start + i, prev, start + e, el, rc, sorted(fars), obs[i][:4]))
                 e = i
+                runs = 0
             elif obs[i][:4] != (prev, False, el, rc):
                 # no transition taken - whatever the conditional auxiliary did in this tick - the clocks run on
                 return ("%s tick %d (frame F%d entered at tick %d, no frame entered now): clocks should read elapsed %r "
@@ -322,15 +344,21 @@ def check_trace(case, line, start=0, count=None, who="rd"):
         if fired is not None:
             # exact-time clause on binary-exact grids
             lone = len(outline(frames, prev)) == 1 and len(fr_verbs(frames[prev])) == 1
-            if case["period"] in DYADIC and lone and fired[0] in ("T", "R"):
-                k = i - e
+            step = Fraction(case["period"])
+            if case.get("fperiod"):
+                fq = Fraction(case["fperiod"])
+                # a period that is a whole number of ticks: the framer runs every fq/P ticks
+                step = fq if fq > 0 and (fq / step).denominator == 1 else None
+            if case["period"] in DYADIC and lone and fired[0] in ("T", "R") and step is not None:
+                k = runs
                 if fired[0] == "T":
-                    ideal = max(1, math.ceil(Fraction(abs(Fraction(fired[1]))) / Fraction(case["period"])))
+                    ideal = max(1, math.ceil(Fraction(abs(Fraction(fired[1]))) / step))
                 else:
                     ideal = max(1, int(abs(num(fired[1]))))
                 if k != ideal:
-                    return "frame F%d with only %r left after %d ticks, exact time says %d" % (prev, fired, k, ideal)
+                    return "frame F%d with only %r left after %d runs, exact time says %d" % (prev, fired, k, ideal)
             e = i
+            runs = 0
     return None
 
 
@@ -414,6 +442,10 @@ def gen_case(rng, tier):
         frames = nested
     case = {"period": period, "nticks": nticks, "frames": frames}
     r = rng.random()
+    if r >= 0.5 and rng.random() < 0.3:
+        # the framer has its own period: a whole number of ticks, a non-multiple, or less than a tick
+        Pf = Fraction(period)
+        case["fperiod"] = repr(float(Pf * rng.choice([2, 2, 3, 4, Fraction(3, 2), Fraction(1, 2), 1])))
     if r >= 0.5 and rng.random() < 0.45:
         # a conditional auxiliary on a timed frame or an over frame (ordinary framer only: an original
         # auxiliary belongs to one main frame at a time)
@@ -471,11 +503,14 @@ class CHECK(core.Check):
                "for binary-exact periods and literals",
                "Lean's Float = IEEE binary64 add/sub/compare = CPython float (checked by this correspondence)",
                "literal conversion Convert2Num (C17), Need.Check beyond tolerance 0 (C21), the scheduler's tick loop (C02)"]
-    PARTIAL = ["model covers one framer instance at a time (nested frames included; an auxiliary framer or a clone of a moot "
-               "framer is an instance entered at the tick its main frame is entered); auxiliaries nested inside the timed "
-               "framer itself, conditional auxiliaries (which truncate / restore the outline without restarting the clock), framer periods other than every tick and the TypeError branch of updateTimer (store stamp "
-               "None, unreachable under the Skedder) are not modelled; on decimal periods only the Float instantiation "
-               "is compared, the exact-time tick formula is proved for exact time only"]
+    PARTIAL = ["model covers one framer instance at a time: nested frames, one conditional auxiliary (`aux helper if …`: outline "
+               "truncated and restored, clocks untouched), its own period (Skedder retime rule), run as active framer, "
+               "auxiliary framer or clone (entered at the tick its main frame is entered). For conditional-auxiliary cases "
+               "the oracle is the clock law plus 'a taken transition's condition held'; the full first-condition rule is "
+               "checked there by the model comparison. Not modelled: plain auxiliaries nested inside the timed framer, "
+               "several / overlapping conditional auxiliaries (D3), periods of auxiliary framers (they are run by their main "
+               "framer), the TypeError branch of updateTimer (store stamp None, unreachable under the Skedder); on decimal "
+               "periods only the Float instantiation is compared, the exact tick formulas are proved for exact time only"]
     TECHNIQUE = "Lean 4 theorems over all programs and stamp sequences (induction on runs) + differential correspondence on generated FloScript"
     LEVEL_TEXT = ("Full proof on the model for every number type (Int and Float included), every program and every sequence "
                   "of store stamps: C11_clocks_since_outline_change (at every evaluation of transition conditions the elapsed "
@@ -488,7 +523,9 @@ class CHECK(core.Check):
                   "conditional auxiliaries: C11_clocks_any_decision / C11_clocks_with_conditional_aux (the clock law for the "
                   "machine with `aux helper if …`, for every decision function), C11_suspension_is_not_an_outline_change "
                   "(a tick without a taken transition - helper started, iterated or finished - keeps stamp and counts on), "
-                  "C11_plain_machine_is_instance "
+                  "C11_plain_machine_is_instance; framer periods: C11_framer_period_zero, C11_framer_period_runs, "
+                  "C11_framer_period_stamps (a framer of period k ticks is run exactly in the ticks divisible by k and sees "
+                  "the stamps 0,kP,2kP,…) "
                   "(nested frames: the transitions of the active outline apply top down, an over frame's timeout sees the "
                   "clock that every inner transition restarts). Exact time (Int, Skedder stamps 0,P,2P,…, instance entered at any tick s, every P>0, every "
                   "T): C11_elapsed_is_k_periods, C11_timeout_tick_exact, C11_first_multiple_is_ceil (transition tick = "
@@ -499,7 +536,7 @@ class CHECK(core.Check):
                   "(restartTimer/updateTimer/restartCounter/updateCounter, enter, segue, precur), building.py "
                   "(buildTimeout/buildRepeat), needing.py Need.Check at tolerance 0, skedding.py stamp accumulation, "
                   "validated only by the correspondence runs; Lean Float = IEEE binary64 = CPython float; one framer instance "
-                  "with nested frames, run as active framer, auxiliary framer or clone (no auxiliaries inside it, framer periods, TypeError branch of updateTimer); the ceil(T/P) tick formula "
+                  "with nested frames, run as active framer, auxiliary framer or clone (no plain auxiliaries inside it, TypeError branch of updateTimer); the ceil(T/P) tick formula "
                   "is proved in exact time only — at decimal periods the implementation follows the Float instantiation.")
 
     def generate(self, rng, n, tier):
@@ -538,6 +575,11 @@ class CHECK(core.Check):
                         {"over": None, "verbs": [sv]}, {"over": 0, "verbs": [verb]}, {"over": None, "verbs": [["G", 0, []]]}]})
                     out.append({"period": period, "nticks": 14, "helper": hp, "origin": "exhaustive", "frames": [
                         {"over": None, "verbs": [verb]}, {"over": 0, "verbs": [sv]}, {"over": None, "verbs": [["G", 0, []]]}]})
+                # the framer has its own period of 2 or 3 ticks (and 1.5 ticks): it is run, and counts, only then
+                for mult in (2, 3, Fraction(3, 2)):
+                    fq = repr(float(P * mult))
+                    out.append({"period": period, "nticks": 14, "fperiod": fq, "frames": [[["T", txt]], [["G", 0, []]]], "origin": "exhaustive"})
+                    out.append({"period": period, "nticks": 14, "fperiod": fq, "frames": [[["R", str(k)]], [["G", 0, []]]], "origin": "exhaustive"})
                 if tier == "thorough":
                     for d in (2, 4, 8):
                         for sg in (-1, 1):
@@ -621,13 +663,16 @@ class CHECK(core.Check):
         k = "+".join(sorted({"T": "timeout", "R": "repeat", "G": "go"}[x] for x in kinds))
         nested = any(fr_over(f) is not None for f in case["frames"])
         place = (case.get("place") or {"kind": "active"})["kind"]
-        return "%s,P=%s%s%s,%s" % (k, case["period"], ",nested" if nested else "", ",cond-aux" if has_susp(case) else "", place)
+        return "%s,P=%s%s%s%s,%s" % (k, case["period"], ",nested" if nested else "", ",cond-aux" if has_susp(case) else "",
+                                     ",framer-period" if case.get("fperiod") else "", place)
 
     def shrink_candidates(self, case):
         def clone():
             return json.loads(json.dumps(case))
         if case["nticks"] > 2:
             c = clone(); c["nticks"] -= 1; yield c
+        if case.get("fperiod"):
+            c = clone(); c.pop("fperiod"); yield c
         if has_susp(case):
             c = clone()
             for f in c["frames"]:
